@@ -29,6 +29,10 @@ type profile struct {
 	// Len "<field>:<n>": the named top-level string / bytes field (or the single element of a
 	// vector of them) is exactly n bytes long: the TL short/long string form boundary 253/254
 	Len string `json:"len,omitempty"`
+	// VecLen "<field>:<n>": the named top-level vector field holds exactly n elements (element i is
+	// built like element i of any vector): lengths on both sides of bin.PreallocateLimit, where the
+	// generated decoders stop trusting the header length for preallocation
+	VecLen string `json:"veclen_field,omitempty"`
 }
 
 const maxDepth = 2
@@ -44,6 +48,9 @@ func (p profile) String() string {
 	}
 	if p.Len != "" {
 		s += "/len:" + p.Len
+	}
+	if p.VecLen != "" {
+		s += "/veclen:" + p.VecLen
 	}
 	return s
 }
@@ -128,8 +135,24 @@ func (b *builder) fill(c *ctor, sv reflect.Value, depth int) {
 				setLen(fv, f.typ, n)
 			}
 		}
+		if depth == 0 && p.VecLen != "" && isVector(f.typ) {
+			parts := strings.SplitN(p.VecLen, ":", 2)
+			if n, err := strconv.Atoi(parts[1]); err == nil && parts[0] == f.name {
+				// elements: canonical scalars, no optional fields, empty inner vectors, the
+				// constructors of a class in turn (the subject is the element count)
+				eb := &builder{profile{Scalars: "n", Opt: "none", Vec: 0, Pick: p.Pick}}
+				s := reflect.MakeSlice(f.typ, n, n)
+				for i := 0; i < n; i++ {
+					eb.set(s.Index(i), f.typ.Elem(), depth, pick+i, false)
+				}
+				fv.Set(s)
+			}
+		}
 	}
 }
+
+// isVector: a TL vector field (a Go slice other than []byte).
+func isVector(t reflect.Type) bool { return t.Kind() == reflect.Slice && t != tBytes }
 
 // lenKind classifies a field type for the boundary-length cases: "string", "bytes" or "".
 func lenKind(t reflect.Type) string {
